@@ -27,7 +27,9 @@ type c17Fmt struct {
 }
 
 func c17Formats() []c17Fmt {
-	h := func(f string) string { return `"parser_settings":{"version":"omni.2.1","file_format_type":"` + f + `"}` }
+	h := func(f string) string {
+		return `"parser_settings":{"version":"omni.2.1","file_format_type":"` + f + `"}`
+	}
 	nl := map[string]string{"none": "", "blank-lines": "\n\n", "crlf": "\r\n"}
 	return []c17Fmt{
 		{Name: "csv", Schema: `{` + h("csv") + `,"file_declaration":{"delimiter":",","header_row_index":1,"data_row_index":2,"columns":[{"name":"a"},{"name":"b"}]},
@@ -241,7 +243,7 @@ func init() {
 	core.Register(&core.Prop{
 		ID:    "C17",
 		Level: "exploration",
-		Rule: "for every format item x separator x periodic outcome pattern over {pass, filtered-out, transform-fails} x driver {Transform loop, FormatReader without Release}: prefix (sep record)^k suffix with k cycles; for every delivered record the tree reachable from its root is measured (node count, structure hash) and must be periodic with the pattern period after a 2-period warm-up (a lasso in the retained-state graph, which bounds the size for every k); distinct by (item, separator, pattern, driver)",
+		Rule:  "for every format item x separator x periodic outcome pattern over {pass, filtered-out, transform-fails} x driver {Transform loop, FormatReader without Release}: prefix (sep record)^k suffix with k cycles; for every delivered record the tree reachable from its root is measured (node count, structure hash) and must be periodic with the pattern period after a 2-period warm-up (a lasso in the retained-state graph, which bounds the size for every k); distinct by (item, separator, pattern, driver)",
 		Assumptions: []string{
 			"readers are deterministic functions of their retained state and the remaining input, so a repeated retained-tree signature at the same phase of a periodic input repeats forever",
 			"non-target declarations that themselves repeat without bound (e.g. repeated global envelopes) are outside the property ('a fixed set of ancestors')",
